@@ -221,6 +221,55 @@ fn composition_run() -> Result<u64, String> {
                 }
             }
         }
+        // longer answers whose leading candidates fail (closed ports), so that candidates beyond the initial batch
+        // are started: they too are started in the resulting order — the peer reached is the first address OF THE
+        // SORTED LIST that accepts
+        let mut closed = vec![];
+        for _ in 0..2 {
+            let l = std::net::TcpListener::bind("127.0.0.1:0").map_err(|e| e.to_string())?;
+            closed.push(l.local_addr().unwrap());
+        }
+        let bindings2: Vec<(Option<Ipv4Addr>, Option<Ipv6Addr>)> = if v6 { vec![(None, None), (Some(Ipv4Addr::LOCALHOST), None)] } else { vec![(Some(Ipv4Addr::LOCALHOST), None)] };
+        for (b4, b6) in bindings2 {
+            let prefer = if b4.is_some() && b6.is_none() { Some(IpVersion::V4) } else { Some(IpVersion::V6) };
+            for n_closed in 1..=2usize {
+                for conc in [Some(1)] {
+                    for i in 0..k {
+                        for j in 0..k {
+                            for l in 0..=k {
+                                if i == j || l == i || l == j {
+                                    continue;
+                                }
+                                let mut list: Vec<SocketAddr> = closed[..n_closed].to_vec();
+                                list.push(addrs[i]);
+                                list.push(addrs[j]);
+                                if l < k {
+                                    list.push(addrs[l]);
+                                }
+                                let want = reference(&list, prefer, None);
+                                // with two attempts at a time the first two OPEN candidates may race when they are started
+                                // together; only lists whose first batch holds at most one open candidate are decided
+                                let first_open = want.iter().position(|a| !closed.contains(a)).unwrap();
+                                if conc == Some(2) && first_open == 0 && !closed.contains(&want[1]) {
+                                    continue;
+                                }
+                                let mut cfg = TcpTransportConfig::default();
+                                cfg.happy_eyeballs_concurrency = conc;
+                                cfg.local_address_ipv4 = b4;
+                                cfg.local_address_ipv6 = b6;
+                                let transport: TcpTransport = TcpTransport::builder().with_config(cfg).with_gai_resolver().build();
+                                let stream = transport.connect_to_addrs(list.clone()).await.map_err(|e| format!("connect failed: {e} (list {list:?}, local addresses {b4:?}/{b6:?})"))?;
+                                let peer = stream.peer_addr().map_err(|e| e.to_string())?;
+                                if peer != want[first_open] {
+                                    return Err(format!("list {list:?} ({n_closed} closed port(s) in front) with local addresses bound v4={b4:?} v6={b6:?}, {conc:?} attempt(s) at a time: connected to {peer}; the sorted order is {want:?}, its first candidate that accepts is {}", want[first_open]));
+                                }
+                                n += 1;
+                            }
+                        }
+                    }
+                }
+            }
+        }
         Ok(n)
     })
 }
